@@ -95,6 +95,9 @@ func JS(ops []Op) string {
 			fmt.Fprintf(&b, "return %s;\n", js(o.V))
 		case "retnull":
 			b.WriteString("return null;\n")
+		case "retundef":
+			// the script ends without saying anything about the bindings (undefined): no bindings, as with null
+			b.WriteString("return;\n")
 		case "nullif":
 			fmt.Fprintf(&b, "if (%s in _.bindings && _.bindings[%s] === %s) { return null; }\n", js(o.K), js(o.K), js(o.V))
 		case "throw":
@@ -194,7 +197,7 @@ func Native(ops []Op, partial, inplace bool) func(context.Context, match.Binding
 			case "fresh":
 				exe.Bs = match.Bindings(enc.DeepCopy(o.V).(map[string]interface{}))
 				return exe, nil
-			case "retnull":
+			case "retnull", "retundef":
 				exe.Bs = nil
 				return exe, nil
 			case "nullif":
